@@ -199,7 +199,8 @@ CLAIMS = {
         'referenced from or and other types; independent exact-rational python oracle.',
    note='Trusted: Coq kernel; model tied by correspondence on the verdict class; text printer and oracle; harness. Not modelled: regex and '
         'the built-in string formats; rule sets the compiler refuses as ill-formed are outside the statement (counted in the evidence). '
-        'Partial: the flattening of alternatives is proved sound (every alternative used is reachable), not complete. No axioms.',
+        'The flattening of alternatives is exact (C01_alternatives_exact: sound, and complete once the fuel covers the walk - the result of the '
+        'depth-first walk is closed under "is an alternative of"; the model runs with proj_fuel, which does: C01_fuel_enough). No axioms.',
    technique='Coq proofs (meaning of each validator over decimal values and decoded strings, any-alternative semantics) + correspondence + oracle',
    ref='section 9, C01'),
  'C03': dict(
@@ -240,8 +241,8 @@ CLAIMS = {
         'fuel bound). Tie: the dump of GetAST() (kinds, decoded keys and scalars, reference texts, manual rules in order with values incl. '
         '20-digit numbers, enum/or/allOf lists, rule-sets, notes) against the model on generated schema models printed under 4 layouts each; '
         'the expected dump computed from the generating model is the oracle.',
-   note='Trusted: Coq kernel; model tied by correspondence; printer and dump in python; harness. Partial: the theorem is at the token level '
-        '(the lexer is covered by the C14 lemmas and the correspondence); annotation placements other than "after the value / after the '
+   note='Trusted: Coq kernel; model tied by correspondence; printer and dump in python; harness. The theorem is at the token level; the lexer and the inside of the '
+        'annotations (rule objects with bare or quoted names, line and block spelling) are the C14 theorems; annotation placements other than "after the value / after the '
         'opening bracket" are not modelled; GetAST() reports allOf with one name as a single name (compared as such); generated rules are '
         'not compared. No axioms.',
    technique='Coq completeness proof of a token-level parser model (source -> tree homomorphism) + correspondence on printed models',
@@ -256,8 +257,10 @@ CLAIMS = {
         'transformations; all layouts must give the same verdict, AST dump (also equal to the model and to the generating model), example, '
         'used types and OpenAPI JSON.',
    note='Trusted: Coq kernel; model tied by correspondence; printer; harness. The composition is proved too: every layout (SLay) of a token sequence is lexed back to it, so every '
-        'layout of every writing of a tree gives that tree (C14_lexer_layout, C14_layout_independent). Partial: quoted vs bare rule names '
-        'and block annotations carrying a rule object are inside the annotation reader (premise parse_ann) and covered by the correspondence. No axioms.',
+        'layout of every writing of a tree gives that tree (C14_lexer_layout, C14_layout_independent). The inside of an annotation is a theorem too: every writing '
+        'of a rule object (bare or quoted rule names, scalars, @names, lists, rule-sets, blanks) is read back (C14_rule_object), and so is the annotation '
+        'around it - on the line with optional note and # comment, or in a block (C14_annotation_rules, C14_annotation_rules_note, C14_block_rules, '
+        'C14_rules_line_or_block). No axioms.',
    technique='Coq lexer lemmas per layout dimension + token-level parser theorem + pairwise comparison of all observables across layouts',
    ref='section 9, C14'),
  'C08': dict(
